@@ -826,6 +826,9 @@ class HAPServerHandler:
 
     def handle_resource(self) -> None:
         """Get a snapshot from the camera."""
+        if not self.is_encrypted:
+            raise UnprivilegedRequestException
+
         assert self.request_body is not None  # nosec
         data = from_hap_json(self.request_body.decode("utf-8"))
 
